@@ -54,6 +54,7 @@ def build(cls, P, decls, order, names="none"):
     if names == "mixed":
         pep.declare_function(ConvexFunction)
     f, part = cc.declare(pep, cls, P, fname="fn" if names == "all" else None)
+    cc.late_name(f, names, len(decls))
     base = [Point() for _ in range(3)]
     if names != "none":
         for k, b in enumerate(base):
